@@ -180,6 +180,113 @@ def plan_executions(ctx, rng, enc_ok, dec_ok):
     return X, H
 
 
+# --------------------------------------------------------------------------- the 251/252/253 boundary of the self-delimiting length
+# A self-delimited packet carries the length of its last frame in one byte below 252 and in two bytes from 252 on.  The
+# executions below make real multistream / surround / projection encoders emit packets whose NON-FINAL streams hold
+# 2..6 frames (40..120 ms) of 249..256 bytes each, one byte at a time.  The planner predicts the frame size from a
+# transcription of the encoder's rate allocation only to AIM the sweep; what was hit is measured from the recorded
+# events (STAT["boundary"]) and nothing here takes part in the judgement.
+BND_LAYOUTS = [     # kind, layout part of the X line, streams, coupled streams, LFE stream (-1: none), ambisonics allocation
+    ("enc", [2, 2, 0, 0, 1], 2, 0, -1, False),
+    ("enc", [3, 2, 1, 0, 1, 2], 2, 1, -1, False),
+    ("enc", [3, 3, 0, 2, 0, 1], 3, 0, -1, False),
+    ("enc", [4, 2, 2, 0, 1, 2, 3], 2, 2, -1, False),
+    ("enc", [4, 3, 1, 3, 0, 1, 2], 3, 1, -1, False),
+    ("enc", [4, 4, 0, 0, 1, 2, 3], 4, 0, -1, False),
+    ("enc", [5, 3, 2, 0, 1, 2, 3, 4], 3, 2, -1, False),
+    ("enc", [6, 4, 2, 0, 4, 1, 2, 3, 5], 4, 2, -1, False),
+    ("surr", [1, 3], 2, 1, -1, False),
+    ("surr", [1, 4], 2, 2, -1, False),
+    ("surr", [1, 6], 4, 2, 3, False),
+    ("surr", [255, 3], 3, 0, -1, False),
+    ("surr", [2, 4], 4, 0, -1, True),
+    ("surr", [2, 6], 5, 1, -1, True),
+    ("penc", [3, 4], 2, 2, -1, False),
+    ("penc", [3, 6], 3, 3, -1, False),
+]
+BND_FRQ = [16, 24, 32, 40, 48]            # 40, 60, 80, 100, 120 ms
+BND_SIZES = list(range(249, 257))
+
+
+def stream_rates(S, C, lfe, ambi, fs, fr, bitrate):
+    """the per-stream rates the multistream encoder derives from a total (src/opus_multistream_encoder.c)"""
+    if ambi:
+        return [max(bitrate // S, 500)] * S
+    nl = 1 if lfe >= 0 else 0
+    nu = S - C - nl
+    nn = 2 * C + nu
+    choff = 40 * max(50, fs // fr)
+    lfeoff = min(bitrate // 20, 3000) + 15 * max(50, fs // fr)
+    so = max(0, min(20000, (bitrate - choff * nn - lfeoff * nl) // nn // 2))
+    total = (nu << 8) + 512 * C + nl * 32
+    cr = 256 * (bitrate - lfeoff * nl - so * (C + nu) - choff * nn) // total
+    out = []
+    for i in range(S):
+        if i < C:
+            r = 2 * choff + max(0, so + (cr * 512 >> 8))
+        elif i != lfe:
+            r = choff + max(0, so + cr)
+        else:
+            r = max(0, lfeoff + (cr * 32 >> 8))
+        out.append(max(r, 500))
+    return out
+
+
+def frame_bytes(nframes, packet_bytes, bps):
+    """bytes of each 20 ms frame (without its TOC) when a stream encoder fills a packet of packet_bytes (src/opus_encoder.c)"""
+    hdr = 3 if nframes == 2 else 2 + (nframes - 1) * 2
+    return min(bps // 400, (nframes + packet_bytes - hdr) // nframes, 1276) - 1
+
+
+def cbr_frame(rate, fs, frq):
+    fr12 = 12 * 400 // frq
+    cbr = (12 * rate // 8 + fr12 // 2) // fr12
+    return frame_bytes(frq // 8, cbr, cbr * fr12 * 8 // 12)
+
+
+def total_for(S, C, lfe, ambi, fs, frq, s, want, pred):
+    """smallest total bitrate for which pred(rate of stream s) >= want"""
+    lo, hi = 1000 * S, 2000000
+    fr = fs // 400 * frq
+    while lo < hi:
+        mid = (lo + hi) // 2
+        if pred(stream_rates(S, C, lfe, ambi, fs, fr, mid)[s]) >= want:
+            hi = mid
+        else:
+            lo = mid + 1
+    return lo
+
+
+def plan_boundary(ctx, rng):
+    X = []
+    k = 0
+    for li, (kind, lay, S, C, lfe, ambi) in enumerate(BND_LAYOUTS):
+        nonfinal = [s for s in range(S - 1) if s != lfe]
+        for frq in BND_FRQ:
+            k += 1
+            fs = 48000 if k % 4 else rng.choice([16000, 24000])
+            app = [2051, 2049, 2048][k % 3]
+            s = nonfinal[k % len(nonfinal)]
+            N = frq // 8
+            reserve = max(0, 2 * (S - 1) - 1) + (S - 1 if frq == 40 else 0)
+            for want in BND_SIZES:
+                fmt = (k + want) % 3
+                cx = [0, 2, 5][(k + want) % 3]
+                # hard CBR: stream s carries frames of exactly `want` bytes
+                T = total_for(S, C, lfe, ambi, fs, frq, s, want, lambda r: cbr_frame(r, fs, frq))
+                X.append(xline(kind, fs, app, T, 0, frq, 4000 * S, 2, 0, fmt, cx, rng.randrange(1, 1 << 30), lay))
+                sel = (li + frq // 8 + want) % 4
+                if sel == 0:
+                    # VBR on a noisy signal: a frame may take at most rate/400 bytes (with its TOC), and often does
+                    T = total_for(S, C, lfe, ambi, fs, frq, s, want, lambda r: r // 400 - 1)
+                    X.append(xline(kind, fs, app, T, 1 + k % 2, frq, 4000 * S, 4, 0, 20 + fmt, cx, rng.randrange(1, 1 << 30), lay))
+                elif sel in (1, 2):
+                    # OPUS_BITRATE_MAX and a buffer in which the first stream is offered exactly enough for frames of `want` bytes
+                    cm = (2 * want + 3) if N == 2 else N * (want + 2)
+                    X.append(xline(kind, fs, app, -1, sel - 1, frq, cm + reserve + 2, 3, 0, 20 + fmt, cx, rng.randrange(1, 1 << 30), lay))
+    return X
+
+
 # --------------------------------------------------------------------------- running and judging
 def run_groups(ctx, groups, timeout=3000):
     """groups: [(exe, name, command lines, number of harness processes)]; all processes of all groups run concurrently.
@@ -235,7 +342,8 @@ def command_of(event, ip):
 
 STAT = dict(events={}, pk_by_kind={}, families_run=set(), layouts_run=set(), tone_events=0, tone_in_domain=0, min_tone_margin_cdB=99999,
             min_proj_margin_cdB=99999, proj_in_domain=0, max_tone_level_error_cdB=0, max_proj_level_error_cdB=0, min_lfe_tone_margin_cdB=99999, discriminating=0, muted_channels=0, dup_channels=0, lost=0, encode_failed=0,
-            hand_refused=0, max_streams=0, max_channels=0, formats=3)
+            hand_refused=0, max_streams=0, max_channels=0, formats=3,
+            boundary={}, boundary2={}, ranges_compared=0)
 
 
 def scan(ctx, path):
@@ -269,6 +377,14 @@ def scan(ctx, path):
                 elif t == "hand" and e["rm"][0] < 0:
                     STAT["hand_refused"] += 1
                 STAT["layouts_run"].add((e["ch"], e["S"], e["C"], tuple(mp)))
+                if "er" in e:
+                    STAT["ranges_compared"] += 1
+                if t != "hand" and len(e.get("sl", [])) == e["S"] and len(e.get("sc", [])) == e["S"]:
+                    # non-final (self-delimited) streams whose last frame is 249..256 bytes: three or more frames / two frames
+                    for i in range(e["S"] - 1):
+                        if 249 <= e["sl"][i] <= 256 and e["sc"][i] >= 2:
+                            d = STAT["boundary"] if e["sc"][i] >= 3 else STAT["boundary2"]
+                            d[e["sl"][i]] = d.get(e["sl"][i], 0) + 1
                 if len(ctx.samples) < 4 and e["S"] >= 2 and "ds" in e:
                     ctx.sample({"event": {q: e[q] for q in ("k", "t", "ch", "S", "C", "map", "fs", "fr", "n", "so", "sk", "rm")},
                                 "float_digests_per_channel": e["dm"][2][:8], "float_digests_per_stream_side": e["ds"][2][:8]})
@@ -421,7 +537,10 @@ def run(ctx):
                 "identity on the matrices exported from the built library); the layouts, (family, channels) pairs and byte strings TLC visited are "
                 "replayed through the real create calls and a real multistream decoder; real multistream / surround / projection encoders are run "
                 "on per-channel test tones and every packet is split, decoded by three multistream decoders (int16, int24, float) and by "
-                "stand-alone decoders per stream, and judged by MSTrace. non-trivial = distinct packet events with at least two streams or a "
+                "stand-alone decoders per stream, and judged by MSTrace; a sweep steps the frame size of the non-final streams of 40-120 ms "
+                "packets one byte at a time through 249..256 (the one-byte / two-byte boundary of the self-delimiting length: hard CBR, VBR on "
+                "a noisy signal, OPUS_BITRATE_MAX in a tight buffer; 16 layouts of 2-5 streams, plain / surround / ambisonics / projection); "
+                "every stand-alone decoder must also end in the final range of the encoder of its stream. non-trivial = distinct packet events with at least two streams or a "
                 "muted / duplicated channel in which all stream sides produced different samples (so that a wrong routing cannot go unnoticed)")
     ctx.assumptions = ["TLC 1.8.0 and the CommunityModules Json reader are trusted",
                        "the family 1/2 stream layouts are the conventional ones (RFC 7845/8486 fix the channel order and leave the stream layout to the "
@@ -435,6 +554,10 @@ def run(ctx):
                        "17.8 dB for 80 ms packets; worst level error 0.41 dB / 0.55 dB, R3); on the LFE stream of a surround encoder, which gets a small "
                        "fraction of the rate, only the identity of the strongest tone is asserted (worst margin seen there 14.4 dB)",
                        "matrix identity tolerance 1/500 of the diagonal (measured worst deviation is recorded under matrix_deviation_ppm)",
+                       "'one packet per stream' is read as: the piece of an encoder-made multistream packet that belongs to stream s is the packet "
+                       "the encoder of stream s produced; it is asserted through the coder's final range (the stand-alone decoder fed the piece ends "
+                       "in the range that stream's encoder ended in - the equality the library documents for every valid packet, also demanded by C02); "
+                       "a damaged tail that the range coder never reads does not show in it",
                        "sample rates and the three sample formats are covered by sampling; FEC decoding and DRED are not exercised"]
     if ctx.replay:
         return replay(ctx)
@@ -522,13 +645,16 @@ def run(ctx):
     san = [X[i] for i in small_ix] + H[:nsan]
     bulk = [l for i, l in enumerate(X) if i not in set(small_ix)] + H[nsan:]
     bulk.sort(key=line_cost, reverse=True)          # round-robin over the sorted list balances the chunks
-    runs2 = run_groups(ctx, [(exe_o, "exec", bulk, 6 if quick else 12), (exe_hk, "execsan", san, 2 if quick else 4)])
+    B = plan_boundary(ctx, rng)
+    nbs = len(B) // 12
+    runs2 = run_groups(ctx, [(exe_o, "exec", bulk, 6 if quick else 12), (exe_hk, "execsan", san, 2 if quick else 4),
+                             (exe_o, "bnd", B[nbs:], 3), (exe_hk, "bndsan", B[:nbs], 1)])
     report_crashes(ctx, runs2, "executions")
     for ip, op, rc, err in runs2:
         ctx.evaluations += scan(ctx, op)
     import hashlib
-    ctx.notes["executions"] = dict(encoder_runs=len(X), hand_built_runs=len(H),
-                                   plan_sha1=hashlib.sha1("\n".join(cl + dl + X + H).encode()).hexdigest())
+    ctx.notes["executions"] = dict(encoder_runs=len(X), hand_built_runs=len(H), boundary_runs=len(B),
+                                   plan_sha1=hashlib.sha1("\n".join(cl + dl + X + H + B).encode()).hexdigest())
     nrej = judge(ctx, exe_hk, runs2, "C10 executions")
     # 5. model conformance beyond the property (SPEC-DRIFT only)
     if not ctx.violations:
@@ -549,15 +675,26 @@ def run(ctx):
             raise vf.Infra("no packet of kind %s was recorded (vacuous run)" % t)
     if STAT["tone_in_domain"] == 0 or STAT["proj_in_domain"] == 0 or STAT["discriminating"] == 0 or STAT["hand_refused"] == 0:
         raise vf.Infra("vacuous run: %s" % {k: STAT[k] for k in ("tone_in_domain", "proj_in_domain", "discriminating", "hand_refused")})
+    for v in (250, 251, 252, 253, 254):
+        if STAT["boundary"].get(v, 0) == 0 or STAT["boundary2"].get(v, 0) == 0:
+            raise vf.Infra("vacuous run: no non-final stream with a last frame of %d bytes (3+ frames: %s, 2 frames: %s)"
+                           % (v, STAT["boundary"], STAT["boundary2"]))
+    if STAT["ranges_compared"] == 0:
+        raise vf.Infra("vacuous run: no packet carried the stream encoders' final ranges")
     finish_notes(ctx)
 
 
 def finish_notes(ctx):
     s = dict(STAT)
+    s["boundary"] = {str(k): v for k, v in sorted(s["boundary"].items())}
+    s["boundary2"] = {str(k): v for k, v in sorted(s["boundary2"].items())}
     fams = sorted(s.pop("families_run"))
     s["families_run"] = {str(f): sorted(ch for ff, ch in fams if ff == f) for f in sorted(set(f for f, ch in fams))}
     s["distinct_layouts_run"] = len(s.pop("layouts_run"))
     ctx.notes["observed"] = s
+    ctx.notes["boundary_sweep"] = ("non-final streams of encoder-made packets whose last frame has 249..256 bytes, by size: 'boundary' = streams of 3-6 "
+                                   "frames (code 3), 'boundary2' = streams of 2 frames (code 1/2); measured from the recorded events (under 'observed'); "
+                                   "ranges_compared = packets whose per-stream encoder and decoder final ranges were compared. No numeric threshold is involved.")
     ctx.notes["thresholds"] = dict(ToneMarginMin_cdB=600, ToneLevelSlack_cdB=700, ToneRateMin_bps_per_channel=64000, ProjRateMin_bps_per_channel=96000, matrix_TolDiv=500,
                                    calibration=("stream-side tones: 941 surround runs (families 0/1/2/255, all rates, 10-120 ms, all applications): worst margin "
                                                 "35.9 dB at >= 64 kb/s per channel (15.5 dB at 48 kb/s); projection outputs: 1100 runs over the ten channel "
@@ -611,7 +748,9 @@ META = dict(
                 "(family, channel count) through the five create calls, TLC-generated byte strings through a real multistream decoder, and by having "
                 "TLC judge every packet that real multistream / surround / projection encoders produce: the split found with the specification's "
                 "self-delimited framing, equal durations, and bit-for-bit equality of every output channel with the stand-alone decoder of the mapped "
-                "stream and side in all three sample formats (muted channels exactly zero); test tones establish which input channel feeds which "
+                "stream and side in all three sample formats (muted channels exactly zero), and that each stand-alone decoder ends in the final "
+                "range of its stream's encoder; a sweep puts 249..256-byte frames (the boundary of the self-delimiting length) into the non-final "
+                "streams of 40-120 ms packets; test tones establish which input channel feeds which "
                 "stream and that projection round-trips every channel."),
     level_note=("Trusted: TLC, the Json module, the harness's digests and tone measurements, my reading of RFC 7845 5.1.1 / RFC 8486 3 (no RFC text "
                 "offline). The stream layouts of families 1 and 2 are the conventional ones, not prescribed by the RFCs. Signals, sample rates, frame "
